@@ -217,4 +217,130 @@ theorem affine_roundtrip (M M' : T6) (h : T6.mul M' M = T6.one) (p v op ov : V3)
     simp only [M3.apply, V3.add] at e1 e2 e3
     ext <;> simp only [z, y, x, o', T6.apply, V3.add, V3.neg, M3.apply] <;> linarith
 
+
+/-! ## path independence of `convert_to` -/
+open BeyondVerif.Chain
+
+/-- **A→B→C equals A→C** for the loop of `Orientation.convert_to` over *any* carrier with an associative product, along any
+link history grown leaf by leaf (every tree / forest), for any three walks, provided each provided edge element is
+inverted by `inv` and no link has providers in both directions. -/
+theorem convert_compose {α : Type} (A : Alg α) (edge : Nat → Nat → Option α) (hE : EdgesOK A edge)
+    (links : List (Nat × Nat)) (hl : leafGrown links = true) (a b c : Nat) (p q pq : List Nat)
+    (hp : p.head? = some a ∧ p.getLast? = some b ∧ IsWalk links p)
+    (hq : q.head? = some b ∧ q.getLast? = some c ∧ IsWalk links q)
+    (hpq : pq.head? = some a ∧ pq.getLast? = some c ∧ IsWalk links pq)
+    (x y z : α) (hx : chain A.mul A.inv edge (p.zip p.tail) A.one = some x)
+    (hy : chain A.mul A.inv edge (q.zip q.tail) A.one = some y)
+    (hz : chain A.mul A.inv edge (pq.zip pq.tail) A.one = some z) : z = A.mul y x := by
+  obtain ⟨φ, ψ, hpot⟩ := potential_exists A edge hE links hl
+  rw [chain_of_path A edge links φ ψ hpot p a b hp.1 hp.2.1 hp.2.2 _ _ hx,
+    chain_of_path A edge links φ ψ hpot q b c hq.1 hq.2.1 hq.2.2 _ _ hy,
+    chain_of_path A edge links φ ψ hpot pq a c hpq.1 hpq.2.1 hpq.2.2 _ _ hz]
+  simp only [A.mul_one]
+  rw [A.assoc, ← A.assoc (φ b), (hpot.1 b).2, A.one_mul]
+
+/-- **A→B→A is the identity** -/
+theorem convert_inverse {α : Type} (A : Alg α) (edge : Nat → Nat → Option α) (hE : EdgesOK A edge)
+    (links : List (Nat × Nat)) (hl : leafGrown links = true) (a b : Nat) (p q : List Nat)
+    (hp : p.head? = some a ∧ p.getLast? = some b ∧ IsWalk links p)
+    (hq : q.head? = some b ∧ q.getLast? = some a ∧ IsWalk links q)
+    (x y : α) (hx : chain A.mul A.inv edge (p.zip p.tail) A.one = some x)
+    (hy : chain A.mul A.inv edge (q.zip q.tail) A.one = some y) : A.mul y x = A.one := by
+  obtain ⟨φ, ψ, hpot⟩ := potential_exists A edge hE links hl
+  rw [chain_of_path A edge links φ ψ hpot p a b hp.1 hp.2.1 hp.2.2 _ _ hx,
+    chain_of_path A edge links φ ψ hpot q b a hq.1 hq.2.1 hq.2.2 _ _ hy]
+  simp only [A.mul_one]
+  rw [A.assoc, ← A.assoc (φ b), (hpot.1 b).2, A.one_mul, (hpot.1 a).1]
+
+/-- the built-in orientation graph (the `+` operations of orient.py, regenerated in execution order) is grown leaf by
+leaf; so is every extension by stations / orbit-attached orientations (each adds one fresh node) -/
+theorem orient_leafGrown : leafGrown Generated.orientHist.reverse = true := by decide
+
+/-- the 6×6 state matrices with the product, unit and inverse used by the model -/
+noncomputable def algT6 : Alg T6 := ⟨T6.mul, T6.one, T6.inv, T6.mul_assoc, T6.one_mul, T6.mul_one⟩
+
+/-- what `Orientation.convert_to` returns in the model, unfolded: a path of the routing model and the chain along it -/
+theorem orientConvert_spec (D : DateArgs) (names : List String) (hist : List (Nat × Nat)) (extras : List Extra)
+    (a b : Nat) (x : T6) (h : orientConvert D names hist extras a b = some x) :
+    ∃ p : List Nat, p.head? = some a ∧ p.getLast? = some b ∧ IsWalk hist.reverse p ∧
+      chain T6.mul T6.inv (edge D names extras) (p.zip p.tail) T6.one = some x := by
+  unfold orientConvert at h
+  simp only at h
+  split at h
+  · cases h
+  · next g hg =>
+    split at h
+    · next p hp =>
+      obtain ⟨h1, h2, h3⟩ := C20.path_valid_chain _ _ hist g hg a b p hp
+      refine ⟨p, h1, h2, ?_, h⟩
+      unfold IsWalk
+      refine List.IsChain.imp ?_ h3
+      intro u v huv
+      simpa [C20.linked, List.mem_reverse] using huv
+    · cases h
+
+/-- **`Orientation.convert_to`: A→B→C = A→C** for the model's own conversion (paths from the routing model of C20, any
+history grown leaf by leaf — the built-in tree plus any stations / orbit-attached orientations) -/
+theorem orientConvert_compose (D : DateArgs) (names : List String) (hist : List (Nat × Nat)) (extras : List Extra)
+    (hE : EdgesOK algT6 (edge D names extras)) (hl : leafGrown hist.reverse = true) (a b c : Nat) (x y z : T6)
+    (hx : orientConvert D names hist extras a b = some x) (hy : orientConvert D names hist extras b c = some y)
+    (hz : orientConvert D names hist extras a c = some z) : z = T6.mul y x := by
+  obtain ⟨p, p1, p2, p3, p4⟩ := orientConvert_spec D names hist extras a b x hx
+  obtain ⟨q, q1, q2, q3, q4⟩ := orientConvert_spec D names hist extras b c y hy
+  obtain ⟨r, r1, r2, r3, r4⟩ := orientConvert_spec D names hist extras a c z hz
+  exact convert_compose algT6 _ hE _ hl a b c p q r ⟨p1, p2, p3⟩ ⟨q1, q2, q3⟩ ⟨r1, r2, r3⟩ x y z p4 q4 r4
+
+/-- **`Orientation.convert_to`: A→B→A = identity** -/
+theorem orientConvert_inverse (D : DateArgs) (names : List String) (hist : List (Nat × Nat)) (extras : List Extra)
+    (hE : EdgesOK algT6 (edge D names extras)) (hl : leafGrown hist.reverse = true) (a b : Nat) (x y : T6)
+    (hx : orientConvert D names hist extras a b = some x) (hy : orientConvert D names hist extras b a = some y) :
+    T6.mul y x = T6.one := by
+  obtain ⟨p, p1, p2, p3, p4⟩ := orientConvert_spec D names hist extras a b x hx
+  obtain ⟨q, q1, q2, q3, q4⟩ := orientConvert_spec D names hist extras b a y hy
+  exact convert_inverse algT6 _ hE _ hl a b p q ⟨p1, p2, p3⟩ ⟨q1, q2, q3⟩ x y p4 q4
+
+/-- **`Frame.transform` A→B→A = identity on states** when both conversions succeed (same centre: offsets 0) -/
+theorem transform_roundtrip_same_centre (D : DateArgs) (names : List String) (hist : List (Nat × Nat)) (extras : List Extra)
+    (hE : EdgesOK algT6 (edge D names extras)) (hl : leafGrown hist.reverse = true) (a b : Nat) (x y : T6)
+    (hx : orientConvert D names hist extras a b = some x) (hy : orientConvert D names hist extras b a = some y)
+    (p v : V3) : y.apply (x.apply p v).1 (x.apply p v).2 = (p, v) := by
+  rw [← T6.apply_mul, orientConvert_inverse D names hist extras hE hl a b x y hx hy, T6.apply_one]
+
+/-! ## kinematics -/
+
+/-- **The converted velocity is the time derivative of the converted position.**  For `R(t) = rot3(−θ(t))` (the sidereal /
+Earth-rotation matrices of PEF→TOD and TIRF→CIRF), `θ` differentiable with derivative `θ'` and a differentiable position
+`r(t)`: each component of `t ↦ R(t) r(t)` has as derivative the velocity block of `expand(R(t), rate)` applied to
+`(r, ṙ)` with `rate = (0, 0, −θ')` — the `(m, −rate(date))` pair those providers return, sign included. -/
+theorem velocity_is_derivative (θ x y z : ℝ → ℝ) (θ' x' y' z' t : ℝ)
+    (hθ : HasDerivAt θ θ' t) (hx : HasDerivAt x x' t) (hy : HasDerivAt y y' t) (hz : HasDerivAt z z' t) :
+    HasDerivAt (fun s => ((rot3 (-(θ s))).apply ⟨x s, y s, z s⟩).x)
+      ((expand (rot3 (-(θ t))) (some ⟨0, 0, -θ'⟩)).apply ⟨x t, y t, z t⟩ ⟨x', y', z'⟩).2.x t ∧
+    HasDerivAt (fun s => ((rot3 (-(θ s))).apply ⟨x s, y s, z s⟩).y)
+      ((expand (rot3 (-(θ t))) (some ⟨0, 0, -θ'⟩)).apply ⟨x t, y t, z t⟩ ⟨x', y', z'⟩).2.y t ∧
+    HasDerivAt (fun s => ((rot3 (-(θ s))).apply ⟨x s, y s, z s⟩).z)
+      ((expand (rot3 (-(θ t))) (some ⟨0, 0, -θ'⟩)).apply ⟨x t, y t, z t⟩ ⟨x', y', z'⟩).2.z t := by
+  have hc : HasDerivAt (fun s => Real.cos (-(θ s))) (-Real.sin (-(θ t)) * (-θ')) t :=
+    hθ.neg.cos
+  have hs : HasDerivAt (fun s => Real.sin (-(θ s))) (Real.cos (-(θ t)) * (-θ')) t :=
+    hθ.neg.sin
+  simp only [rot3, M3.apply, expand, T6.apply, M3.mul, M3.neg, M3.skew, V3.add, cos, sin]
+  refine ⟨?_, ?_, ?_⟩
+  · have h := ((hc.mul hx).add (hs.mul hy)).add ((hasDerivAt_const t (0 : ℝ)).mul hz)
+    exact h.congr_deriv (by (try simp only [Pi.neg_apply]); ring)
+  · have h := ((hs.neg.mul hx).add (hc.mul hy)).add ((hasDerivAt_const t (0 : ℝ)).mul hz)
+    exact h.congr_deriv (by (try simp only [Pi.neg_apply]); ring)
+  · have h := (((hasDerivAt_const t (0 : ℝ)).mul hx).add ((hasDerivAt_const t (0 : ℝ)).mul hy)).add ((hasDerivAt_const t (1 : ℝ)).mul hz)
+    exact h.congr_deriv (by (try simp only [Pi.neg_apply]); ring)
+
+/-- the rate vectors of the two Earth-rotation providers are `(0, 0, −ω⊕ (1 − LOD/86400))` with the constant found in the
+source: PEF_to_TOD and TIRF_to_CIRF hand `−rate(date)` to `expand`, i.e. the `rate = (0, 0, −θ')` of
+`velocity_is_derivative` for a sidereal angle advancing at `θ' = ω⊕ (1 − LOD/86400)` -/
+theorem earth_rotation_rate (D : DateArgs) :
+    edgeBuiltin D "PEF" "TOD" = some (expand (rot3 (deg2rad (-(gastDeg80 D))))
+      (some ⟨-0, -0, -(7.292115146706979e-5 * (1 - D.lod / 1000.0 / 86400.0))⟩)) ∧
+    edgeBuiltin D "TIRF" "CIRF" = some (expand (rot3 (-(era10 D.jdut1)))
+      (some ⟨-0, -0, -(7.292115146706979e-5 * (1 - D.lod / 1000.0 / 86400.0))⟩)) := by
+  constructor <;> simp [edgeBuiltin, rate80, rate10, vecOf, V3.neg]
+
 end BeyondVerif.C02
